@@ -428,6 +428,32 @@ static void need_case(struct enc *e, int *L, int len, int r)
     if (rc >= 0) ev_arr("N", N, nn);
     ev_int("l1", verif_live);
     ev_end();
+    /* every fifth case once more with OVERLAPPING lists (an index both requested and excluded, as the repository's own
+     * test passes them): the union of the two lists is what counts */
+    {
+        static unsigned long ctr;
+        if ((ctr++ % 5) == 0 && len < MAXN - 2) {
+            int v;
+            for (v = 0; v < 2; v++) {
+                int R2[MAXN], X2[MAXN], nr = r, nx = len - r; long l2 = verif_live;
+                for (i = 0; i < r; i++) R2[i] = R[i];
+                for (i = 0; i < nx; i++) X2[i] = X[i];
+                if (v == 0) X2[nx++] = R[0];                  /* requested index also excluded */
+                else { if (len - r == 0) break; R2[nr++] = X[0]; }   /* excluded index also requested */
+                R2[nr] = -1; X2[nx] = -1;
+                for (i = 0; i < MAXN + 4; i++) N[i] = -7;
+                ev_begin("Need"); ev_int("d", e->desc); ev_cfg(e->be, e->k, e->m, e->hd, e->ct);
+                ev_arr("R", R2, nr); ev_arr("X", X2, nx); ev_int("l0", l2); ev_int("ov", 1);
+                ev_call();
+                rc = liberasurecode_fragments_needed(e->desc, R2, X2, N);
+                ev_int("rc", rc);
+                for (nn = 0; nn < MAXN + 3 && N[nn] != -1; nn++) ;
+                if (rc >= 0) ev_arr("N", N, nn);
+                ev_int("l1", verif_live);
+                ev_end();
+            }
+        }
+    }
 }
 static int g_need_onlylen;   /* sweep_need_len: only lists of exactly this length */
 static void sweep_need(int argc, char **argv)
@@ -648,17 +674,24 @@ int main(int argc, char **argv)
             else snprintf(how, sizeof how, "exit%d", WEXITSTATUS(st));
             tail[0] = 0;
             if (ef) {
-                char *l = NULL; size_t c = 0;
+                char *l = NULL; size_t c = 0; int skip_summary = 0;
                 while (getline(&l, &c, ef) > 0) {
+                    /* the two kinds of undefined behaviour UBSan only reports and continues from (information, not the
+                     * reason of this death) would otherwise fill the excerpt: keep the LAST reports */
+                    if (strstr(l, "runtime error:") && (strstr(l, "cannot be represented in type") || strstr(l, "signed integer overflow"))) { skip_summary = 1; continue; }
+                    if (skip_summary && strstr(l, "SUMMARY: UndefinedBehaviorSanitizer")) { skip_summary = 0; continue; }
+                    skip_summary = 0;
                     if (strstr(l, "ERROR:") || strstr(l, "runtime error:") || strstr(l, "SUMMARY:") || strstr(l, "LEDGER:")) {
-                        size_t i;
+                        size_t i, ll = strlen(l);
+                        if (tn + ll + 2 > 1200) {             /* drop the oldest half */
+                            size_t cut = tn / 2; memmove(tail, tail + cut, tn - cut); tn -= cut;
+                        }
                         for (i = 0; l[i] && tn < sizeof tail - 2; i++) {
                             char ch = l[i];
                             if (ch == '"' || ch == '\\' || (unsigned char)ch < 32) ch = ' ';
                             tail[tn++] = ch;
                         }
                         tail[tn++] = '|'; tail[tn] = 0;
-                        if (tn > 1200) break;
                     }
                 }
                 free(l); fclose(ef);
